@@ -208,7 +208,13 @@ func cleanPath(p, proto string) string {
 		p = "/" + p
 	}
 	if p != "" {
-		return path.Clean(p)
+		c := path.Clean(p)
+		// path.Clean drops a trailing slash; a URL path that ends in one (or in a dot segment, which
+		// denotes a directory) names a different resource and keeps it
+		if c != "/" && (strings.HasSuffix(p, "/") || strings.HasSuffix(p, "/.") || strings.HasSuffix(p, "/..")) {
+			c += "/"
+		}
+		return c
 	}
 	return ""
 }
